@@ -33,6 +33,22 @@ var attCfgs = []attCfg{
 	{"store[K1,K2]", world.SPConf{Store: []string{"K1", "K2"}}},
 	{"store[K2]", world.SPConf{Store: []string{"K2"}}},
 	{"skip-signature", world.SPConf{Store: []string{"K1"}, SkipSig: true}},
+	// a certificate store that holds no certificate (signature checking on): nothing is signed
+	// by a key in it, so nothing may be accepted
+	{"store[]", world.SPConf{Store: []string{}}},
+}
+
+// attCfgList is the list of configurations a search judges its states under: the three
+// signature-checking stores, the empty store for shallow states, skip-signature for C04.
+func attCfgList(prop string, shallow bool) []int {
+	l := []int{0, 1, 2}
+	if prop == "C04" {
+		l = append(l, 3)
+	}
+	if shallow {
+		l = append(l, 4)
+	}
+	return l
 }
 
 type attCase struct {
@@ -330,10 +346,6 @@ func attExplore(r *mc.Run, prop string) {
 		}
 		init = append(init, attState{XML: m.XML, Path: m.Name})
 	}
-	ncfg := 3 // the skip-signature configuration only matters to C04
-	if prop == "C04" {
-		ncfg = len(attCfgs)
-	}
 	r.Set("initial_states", len(init))
 	r.Set("bfs_depth_bound", depth)
 	visit := func(s mc.BFSState, d int) {
@@ -352,7 +364,7 @@ func attExplore(r *mc.Run, prop string) {
 				enc = idp.Encode(xml, st.Deflate)
 			}
 			sp := attCfgs[0].Conf.Build()
-			for ci := 0; ci < ncfg; ci++ {
+			for _, ci := range attCfgList(prop, d <= 1) {
 				keys, detail, class := attJudge(enc, xml, ci, sp)
 				r.Eval(1)
 				r.Bucket(class)
